@@ -63,6 +63,13 @@ class C07(XsProp):
         n = 600 if tier == 'quick' else 15000
         cs = []
         self.expect = {}
+        self.refuse = set()
+        # byte lists with one element that is not a byte: must be refused, whatever its low bits are
+        for bad in [256, -1, 300, 2 ** 63, 2 ** 64, 2 ** 64 + 65, 3 * 2 ** 64 + 255, -(2 ** 64) + 7, -(2 ** 127), 2 ** 127 - 1, 2 ** 32 + 1, 2 ** 8 * 3 + 5]:
+            for form in ['[ %d ] >bitstr', '[ 1 %d 2 ] >bitstr', '[ [ %d ] ] >bitstr', '[ "a" %d ] >bitstr', '[ 7 [ 8 %d ] ] >bitstr emit output']:
+                case = 'xs limits 4000 - - | eval %s | stack' % hexsrc(form % bad)
+                cs.append(case)
+                self.refuse.add(case)
         for i in range(n):
             fs = []
             order = 'little'
@@ -102,6 +109,12 @@ class C07(XsProp):
         fails, samples = [], []
         n = unal = 0
         for c, o in zip(cases, impl):
+            if c in getattr(self, 'refuse', ()):
+                n += 1
+                if o.split(' | ')[1] == 'ok':
+                    fails.append(('case: %s\nsource: %s\nresult: %s' % (c, src_of(c)[0], o[:300]),
+                                  'a byte list with an element outside 0..255 was packed (the bytes would not parse back to it)'))
+                continue
             if c not in getattr(self, 'expect', {}) or 'PANIC' in o:
                 continue
             total, exps, widths = self.expect[c]
